@@ -3,6 +3,7 @@ import TlsProofs.Crypto.ModesTop
 import TlsProofs.Crypto.CalcKey
 import TlsProofs.Crypto.GcmTop
 import TlsProofs.Crypto.CcmTop
+import TlsProofs.Crypto.AesTables
 /-
   C09 — symmetric primitives and key derivation compute the standardised functions.
 
@@ -405,6 +406,23 @@ theorem calc_key_output_length (hs : Model.Hashes) (wf : HashesWF hs) (v : Spec.
     (h : Spec.calcKey hs v sha384Prf l secret transcript cr sr length = some r) : r.length = length :=
   spec_calcKey_length hs wf v sha384Prf l secret transcript cr sr length hlen hl r h
 
+/-- `keyingMaterialExporter` (tlsconnection.py) = RFC 5705 §4 for TLS 1.0–1.2 (the version's PRF over
+    client_random ‖ server_random with the caller's label) and RFC 8446 §7.5 for TLS 1.3
+    (HKDF-Expand-Label(Derive-Secret(exporter secret, label, ""), "exporter", Hash(""), length));
+    the four reserved labels raise ValueError by the code's own guard -/
+theorem exporter_eq_spec (hs : Model.Hashes) (wf : HashesWF hs) (mac256 mac384 : Bytes → Bytes → Bytes)
+    (sha384Prf : Bool) (ms cr sr ems label : Bytes) (length : Nat)
+    (hlab : ¬ (label = lblServerFinished ∨ label = lblClientFinished ∨ label = lblMasterSecret ∨ label = lblKeyExpansion))
+    (h1 : length < 65536) (h2 : 6 + label.length < 256)
+    (hL : divceil length (if sha384Prf then hs.sha384 else hs.sha256).digestSize ≤ 255)
+    (hd : (if sha384Prf then hs.sha384 else hs.sha256).digestSize < 256) :
+    (∀ v : Spec.Version, v ≠ .ssl3 →
+      Model.keyingMaterialExporter hs mac256 mac384 v.pair sha384Prf ms cr sr ems label length =
+        .ok (Spec.exporter hs mac256 mac384 false v sha384Prf ms cr sr ems label length)) ∧
+    Model.keyingMaterialExporter hs mac256 mac384 (3, 4) sha384Prf ms cr sr ems label length =
+      .ok (Spec.exporter hs mac256 mac384 true .tls12 sha384Prf ms cr sr ems label length) :=
+  exporter_spec hs wf mac256 mac384 sha384Prf ms cr sr ems label length hlab h1 h2 hL hd
+
 /-- `HKDF_expand` = RFC 5869 HKDF-Expand on the RFC's whole domain L ≤ 255·HashLen, with exactly L
     output bytes; beyond the domain it raises ValueError (never a short or wrapped counter) -/
 theorem hkdf_expand_eq_spec (mac : Bytes → Bytes → Bytes) (dl : Nat) (prk info : Bytes) (L : Nat) :
@@ -622,5 +640,51 @@ theorem ccm_open_some_iff (E : Bytes → Bytes) (hE : ∀ b, (E b).length = 16) 
       constructor
       · intro h; cases h
       · intro h; rw [h.2.1] at h; exact absurd h.2.2 ht
+
+/-! ## AES core (tlslite/utils/rijndael.py): the GENERATED tables against FIPS-197
+   These are statements over the whole literal tables, re-generated from the source and re-checked on
+   every run.  NOT proved: that the table-driven rounds and key schedule (`Aes.Model`, an executable
+   transliteration) equal the FIPS-197 Cipher / InvCipher / KeyExpansion (`Aes.Spec`) for all keys and
+   blocks — that equality, like single DES, is tied by correspondence only (driver ops `aes_model`,
+   `aes_spec` against the implementation, FIPS-197 appendix C and an independent Python FIPS-197). -/
+
+/-- `S` is the FIPS-197 S-box: inverse in GF(2^8) followed by the affine transformation (all 256 entries) -/
+theorem aes_sbox_table : Aes.Gen.S.toList = (List.range 256).map Aes.Spec.sboxN := Aes.S_table
+
+/-- `Si` is the inverse permutation of `S`, both ways (InvSubBytes) -/
+theorem aes_inv_sbox_table :
+    Aes.Gen.S.toList.map (fun s => Aes.Gen.Si.toList.getD s 256) = List.range 256 ∧
+    Aes.Gen.Si.toList.map (fun s => Aes.Gen.S.toList.getD s 256) = List.range 256 := Aes.Si_table
+
+/-- T1..T4 = SubBytes then the MixColumns column (02 01 01 03) and its rotations -/
+theorem aes_round_tables :
+    Aes.Gen.T1.toList = Aes.Gen.S.toList.map (fun s => Aes.word (Aes.Spec.gmulN 2 s) s s (Aes.Spec.gmulN 3 s)) ∧
+    Aes.Gen.T2.toList = Aes.Gen.S.toList.map (fun s => Aes.word (Aes.Spec.gmulN 3 s) (Aes.Spec.gmulN 2 s) s s) ∧
+    Aes.Gen.T3.toList = Aes.Gen.S.toList.map (fun s => Aes.word s (Aes.Spec.gmulN 3 s) (Aes.Spec.gmulN 2 s) s) ∧
+    Aes.Gen.T4.toList = Aes.Gen.S.toList.map (fun s => Aes.word s s (Aes.Spec.gmulN 3 s) (Aes.Spec.gmulN 2 s)) :=
+  Aes.T_tables
+
+/-- T5..T8 = InvSubBytes then the InvMixColumns column (0e 09 0d 0b) and its rotations -/
+theorem aes_inv_round_tables :
+    Aes.Gen.T5.toList = Aes.Gen.Si.toList.map (fun s => Aes.word (Aes.Spec.gmulN 14 s) (Aes.Spec.gmulN 9 s) (Aes.Spec.gmulN 13 s) (Aes.Spec.gmulN 11 s)) ∧
+    Aes.Gen.T6.toList = Aes.Gen.Si.toList.map (fun s => Aes.word (Aes.Spec.gmulN 11 s) (Aes.Spec.gmulN 14 s) (Aes.Spec.gmulN 9 s) (Aes.Spec.gmulN 13 s)) ∧
+    Aes.Gen.T7.toList = Aes.Gen.Si.toList.map (fun s => Aes.word (Aes.Spec.gmulN 13 s) (Aes.Spec.gmulN 11 s) (Aes.Spec.gmulN 14 s) (Aes.Spec.gmulN 9 s)) ∧
+    Aes.Gen.T8.toList = Aes.Gen.Si.toList.map (fun s => Aes.word (Aes.Spec.gmulN 9 s) (Aes.Spec.gmulN 13 s) (Aes.Spec.gmulN 11 s) (Aes.Spec.gmulN 14 s)) :=
+  Aes.Tinv_tables
+
+/-- U1..U4 = InvMixColumns columns of a plain byte (decryption round keys) -/
+theorem aes_key_inv_mix_tables :
+    Aes.Gen.U1.toList = (List.range 256).map (fun x => Aes.word (Aes.Spec.gmulN 14 x) (Aes.Spec.gmulN 9 x) (Aes.Spec.gmulN 13 x) (Aes.Spec.gmulN 11 x)) ∧
+    Aes.Gen.U2.toList = (List.range 256).map (fun x => Aes.word (Aes.Spec.gmulN 11 x) (Aes.Spec.gmulN 14 x) (Aes.Spec.gmulN 9 x) (Aes.Spec.gmulN 13 x)) ∧
+    Aes.Gen.U3.toList = (List.range 256).map (fun x => Aes.word (Aes.Spec.gmulN 13 x) (Aes.Spec.gmulN 11 x) (Aes.Spec.gmulN 14 x) (Aes.Spec.gmulN 9 x)) ∧
+    Aes.Gen.U4.toList = (List.range 256).map (fun x => Aes.word (Aes.Spec.gmulN 9 x) (Aes.Spec.gmulN 13 x) (Aes.Spec.gmulN 11 x) (Aes.Spec.gmulN 14 x)) :=
+  Aes.U_tables
+
+/-- rcon[i] = x^i, the shift offsets and the round numbers of FIPS-197 -/
+theorem aes_rcon_shifts_rounds :
+    (Aes.Gen.rcon.toList.take 14) = (List.range 14).map (fun i => (List.range i).foldl (fun r _ => Aes.Spec.xtimeN r) 1) ∧
+    Aes.Gen.shiftsEnc = [1, 2, 3] ∧ Aes.Gen.shiftsDec = [3, 2, 1] ∧
+    Aes.Gen.numRounds = [(16, 10), (24, 12), (32, 14)] :=
+  ⟨Aes.rcon_table, Aes.shifts_and_rounds⟩
 
 end Tls.Crypto.C09
